@@ -47,6 +47,11 @@ func c12Scenarios(thorough bool) []c12Scenario {
 	d3 := map[string]interface{}{"s": 1, "t": "b"}
 	cont := []map[string]interface{}{{"f": "aa"}, {"f": "b"}}
 	cont2 := map[string]map[string]interface{}{"x": {"f": "a"}, "y": {"f": "c"}}
+	// deep documents: collection selectors of 3 and 5 segments (slices built by successive appends have spare capacity there)
+	deep := func(vals ...interface{}) map[string]interface{} {
+		return map[string]interface{}{"a": map[string]interface{}{"b": map[string]interface{}{"c": vals, "d": map[string]interface{}{"e": map[string]interface{}{"f": vals}}}}}
+	}
+	deeps := []interface{}{deep("x", "y", "a"), deep("a"), deep("q", "a", "z", "w")}
 	shared := []interface{}{d1}
 	mixed := []interface{}{d1, d2, d3}
 	sc := []c12Scenario{
@@ -65,6 +70,9 @@ func c12Scenarios(thorough bool) []c12Scenario {
 		{name: "quantifier no regexp 3x1", src: "all l as i, x { x != `q` and i != 9 }", threads: 3, ops: 1, data: mixed, bound: -1},
 		{name: "steady state 3x2", src: "s matches `a+`", threads: 3, ops: 2, data: mixed, warm: true, bound: -1},
 		{name: "concurrent creation 2x1", src: "s matches `a+` or t == `b`", create: true, threads: 2, ops: 1, data: mixed, bound: -1},
+		{name: "quantifier over a 3-segment selector 2x1", src: "any a.b.c as x { x == `a` }", threads: 2, ops: 1, data: deeps, bound: -1},
+		{name: "quantifier over a 5-segment selector 2x2", src: "all a.b.d.e.f as i, x { x != `nope` and i != 7 }", threads: 2, ops: 2, data: deeps, bound: 2},
+		{name: "nested quantifiers over deep selectors 2x1", src: "any a.b.c as x { any a.b.d.e.f as y { x == y } }", threads: 2, ops: 1, data: deeps, bound: 2},
 		{name: "matches 3x2 first use (bounded)", src: "s matches `a+`", threads: 3, ops: 2, data: mixed, bound: 2},
 		{name: "two caches 3x1 (bounded)", src: "s matches `a` or t matches `b`", threads: 3, ops: 1, data: mixed, bound: 2},
 	}
